@@ -93,6 +93,24 @@ def run_case(case, mode):
 
     routines, conds, flows = {}, {}, {}
 
+    def make_test(v):
+        """0 False | 1 True | callables: 2 -> False, 3 -> True, 4 raises TypeError inside, 5 raises ValueError,
+        6 wrong arity (TypeError when called)"""
+        if v in (0, 1):
+            return bool(v)
+        if v == 2:
+            return lambda: False
+        if v == 3:
+            return lambda: True
+        if v == 4:
+            data = None
+            return lambda: len(data) > 0
+        if v == 5:
+            def bad():
+                raise ValueError('test')
+            return bad
+        return lambda x: False
+
     def api(op, t, v, inval=None):
         """one public API call; returns the value (exceptions propagate)"""
         if op == 'next':
@@ -102,7 +120,7 @@ def run_case(case, mode):
         if op in ('signal', 'unhang'):
             return getattr(conds[t], op)()
         if op == 'settest':
-            conds[t].test = bool(v)
+            conds[t].test = make_test(v)
             return None
         if op == 'fset':
             flows[t].value = 's%d' % v
@@ -256,6 +274,8 @@ def main_():
     import logging
     logging.disable(logging.CRITICAL)
     sys.setrecursionlimit(400)
+    gc.collect()
+    gc.freeze()        # the library's own objects: keeps the per-case gc.collect() below cheap
     sys.unraisablehook = lambda *_: None     # errors of abandoned generators' clean-up code are ignored by Python
     out = []
     for i, case in zip(inp['ids'], inp['cases']):
